@@ -136,8 +136,12 @@ class C14(object):
 
     def make_case(self, rng, idx, tier):
         if idx % 25 == 24:
-            return {'kind': 'model_desc', 'hseed': rng.getrandbits(30), 'builder': rng.choice(['SIM', 'PC', 'SIMEX1']),
-                    'maxtime': 4}
+            case = {'kind': 'model_desc', 'hseed': rng.getrandbits(30),
+                    'builder': rng.choice(['SIM', 'PC', 'SIMEX1', 'SPEC', 'SPEC']), 'maxtime': 4}
+            if case['builder'] == 'SPEC':
+                from vf.gen import modelspec as M
+                case['mspec'] = M.gen_spec(rng, n_zones=rng.choice([1, 2]), maxtime=3)
+            return case
         return gen_case(rng)
 
     # ------------------------------------------------------------------------------------------
@@ -248,10 +252,17 @@ class C14(object):
         r = random.Random(case['hseed'])
 
         def build(hostile):
-            cls = ambient.book_builders()[case['builder']]
-            b = cls(country_code='C1')
-            mod = b.build_model()
-            mod.MaxTime = case['maxtime']
+            if case['builder'] == 'SPEC':
+                from vf.gen import modelspec as M
+                bb = M.build(case['mspec'], solve=False)
+                if bb.error is not None:
+                    raise bb.error
+                mod = bb.model
+            else:
+                cls = ambient.book_builders()[case['builder']]
+                b = cls(country_code='C1')
+                mod = b.build_model()
+                mod.MaxTime = case['maxtime']
             rr = random.Random(case['hseed'])
             for sec in mod.GetSectors():
                 if hostile:
